@@ -273,6 +273,13 @@ def compare_files(ops_path, impl_path, res_path, model_path, keys):
             cur += 1
         case_idx.append(cur)
     tainted = {case_idx[i] for i in range(n) if impl[i].endswith(" tick") or impl[i] == "tick"}
+    specviol = []
+    for i in range(n):
+        # the model's Spec oracle flags lines on which the MODEL itself deviates from the property's
+        # letter (theorem only `_partial` there); if the implementation agrees with the model on such
+        # a line, the implementation violates the property on this input
+        if "~specviol=" in model[i] and case_idx[i] not in tainted and not line_diff(impl[i], model[i], keys):
+            specviol.append((case_idx[i], i, ["#specviol:" + parse_out(model[i]).get("~specviol", "?")]))
     for i in range(n):
         if case_idx[i] in tainted:
             continue  # the wall-clock second ticked during a clock-reading op: case not judged
@@ -288,10 +295,11 @@ def compare_files(ops_path, impl_path, res_path, model_path, keys):
                 break
     if not failures and len(impl) != len(model):
         failures.append((cur, n, ["#length %d vs %d" % (len(impl), len(model))]))
+    failures += specviol
     return ops, impl, res, model, failures
 
 
-def rerun_case(stream, header, op_lines, keys, tag):
+def rerun_case(stream, header, op_lines, keys, tag, want=None):
     """run one case (list of op lines) on both sides; returns (differs?, impl_lines, model_lines, resolved)"""
     d = os.path.join(BUILD, "shrink")
     os.makedirs(d, exist_ok=True)
@@ -308,10 +316,16 @@ def rerun_case(stream, header, op_lines, keys, tag):
     impl, model, resolved = read_lines(out), read_lines(mp), read_lines(res)
     differs = len(impl) != len(model) or any(
         (not a.startswith("#")) and line_diff(a, b, keys) for a, b in zip(impl, model))
+    if want is not None and differs:
+        # while shrinking, keep only candidates that fail the same way (same differing fields on some
+        # line) and that both sides still accept as well-formed ops
+        same = any((not a.startswith("#")) and set(want) <= set(line_diff(a, b, keys)) for a, b in zip(impl, model))
+        malformed = any(l == "bad-op" or l.startswith("bad-op ") for l in impl + model)
+        differs = same and not malformed
     return differs, impl, model, resolved
 
 
-def ddmin(stream, header, op_lines, keys, tag, budget=200):
+def ddmin(stream, header, op_lines, keys, tag, budget=200, want=None):
     """delta-debugging over the op lines of one failing case"""
     cur = list(op_lines)
     n = 2
@@ -324,7 +338,7 @@ def ddmin(stream, header, op_lines, keys, tag, budget=200):
             if not cand:
                 continue
             runs += 1
-            bad, *_ = rerun_case(stream, header, cand, keys, tag)
+            bad, *_ = rerun_case(stream, header, cand, keys, tag, want)
             if bad:
                 cur = cand
                 n = max(n - 1, 2)
@@ -434,9 +448,13 @@ def run_stream(prop_id, cfg, scfg, seed, tier, log, stats):
             if dkeys == ["#crash"]:
                 shrunk = body
                 bad, simpl, smodel, sres = True, ["#crash rc=%d: %s" % (rc, txt[-1500:])], [], []
+            elif dkeys[0].startswith("#specviol:"):
+                shrunk = body
+                _, simpl, smodel, sres = rerun_case(stream, hdr, body, keys, tag)
+                bad = any("~specviol=" in m for m in smodel)
             else:
                 bad0, *_ = rerun_case(stream, hdr, body, keys, tag)
-                shrunk = ddmin(stream, hdr, body, keys, tag) if bad0 and len(body) > 1 else body
+                shrunk = ddmin(stream, hdr, body, keys, tag, want=dkeys) if bad0 and len(body) > 1 else body
                 bad, simpl, smodel, sres = rerun_case(stream, hdr, shrunk, keys, tag)
             violations.append({
                 "kind": "failing-input", "stream": stream, "source": label, "case": hdr,
@@ -456,8 +474,12 @@ def match_known(prop_id, v, known):
         m = f.get("match", {})
         if m.get("stream") and m["stream"] != v.get("stream"):
             continue
+        if m.get("specviol"):
+            if "#specviol:" + m["specviol"] in v.get("differing_keys", []):
+                return f
+            continue
         text = "\n".join(v.get("ops", []) + v.get("impl_out", []))
-        if all(re.search(p, text, flags=re.M) for p in m.get("all_of", [])):
+        if m.get("all_of") and all(re.search(p, text, flags=re.M) for p in m["all_of"]):
             return f
     return None
 
@@ -486,7 +508,8 @@ def setup():
     with Lock("build"):
         e_ok, _ = run_extract(log)
         ok &= e_ok
-        l_ok, out = lake_build(["BurrowVerif", "bvdriver"], log)
+        mods = sorted({m for c in PROPS.values() if c.get("ready", True) for m in c["lean_modules"]})
+        l_ok, out = lake_build(mods + ["bvdriver"], log)
         ok &= l_ok
         h_ok, _ = build_harness(log)
         ok &= h_ok
